@@ -295,6 +295,8 @@ type MonLog struct {
 	AfterSave  func(host string, uds []pb.Update)
 	SaveDelay  func() time.Duration
 	OnSaveSnapshots func(host string, before bool)
+	// OnSnapshotRecord sees every locally created snapshot recorded in the log store
+	OnSnapshotRecord func(shard, replica, index uint64)
 	saveCalls  int64
 	frozen     int32 // power is off: saves that still return are not durable
 }
@@ -437,6 +439,13 @@ func (d *monDB) SaveSnapshots(uds []pb.Update) error {
 	err := d.ILogDB.SaveSnapshots(uds)
 	if err == nil {
 		d.mon.record(uds)
+		if f := d.mon.OnSnapshotRecord; f != nil {
+			for _, ud := range uds {
+				if !pb.IsEmptySnapshot(ud.Snapshot) && !ud.Snapshot.Dummy && !ud.Snapshot.Witness {
+					f(ud.ShardID, ud.ReplicaID, ud.Snapshot.Index)
+				}
+			}
+		}
 		if f := d.mon.OnSaveSnapshots; f != nil {
 			f(d.mon.host, false)
 		}
@@ -698,7 +707,14 @@ func (s *ShardSpec) Disk(shard, replica uint64) *DiskImage {
 }
 
 // StartReplica starts one replica of the shard on the host.
-func (h *Host) StartReplica(spec *ShardSpec, members map[uint64]dragonboat.Target, join bool, cfg config.Config) error {
+func (h *Host) StartReplica(spec *ShardSpec, members map[uint64]dragonboat.Target, join bool, cfg config.Config) (err error) {
+	// a replica that cannot be started because the code under test panics on what it
+	// finds on disk is reported as an error ("panic: ..."), not as a dead test process
+	defer func() {
+		if p := recover(); p != nil {
+			err = fmt.Errorf("panic: %v", p)
+		}
+	}()
 	switch spec.Kind {
 	case KindRegular:
 		return h.NH.StartReplica(members, join, func(shard, replica uint64) sm.IStateMachine {
